@@ -1,6 +1,316 @@
-/- C16 — property theorems (in progress). -/
-import Kap.Spec.C16
+/-
+C16 — property theorems (every `theorem` in this module is a proof obligation; `bin/check C16` audits each
+one's axioms). Helper lemmas live in Kap/Proofs/C16*.lean.
+
+Statement (properties.jsonl): each query a batch task issues selects data with time in [stop−period, stop)
+where stop is the tick time minus the offset, whatever WHERE clause, group-by or fill the user wrote,
+keeping the user's conditions intact; ticks follow every()/cron() (aligned when requested), and the
+historical query list for a time span is exactly the list of queries live ticks in that span would have
+issued. A task may only query the database/retention policies it declared.
+
+The theorems are about the model of Kap/Model/C16.lean, which follows the code after the three `fix:`
+commits of findings/C16.txt; the snapshot's behaviour is kept as `spliceOld`, `tickerNextOld`,
+`cloneWith false` for the counterexample theorems.
+-/
+import Kap.Proofs.C16Ticks
 namespace Kap.Props.C16
 open Kap.C16
+
+/-! ### (1) the issued text means: user condition AND time range — for every WHERE clause -/
+
+/-- Whatever tree is printed, the parser accepts the text and builds `reparse` of it (the fuel the model
+parser is given always suffices). -/
+theorem parse_print (e : Cond) : parse e.print = some (reparse e) := parse_print' e
+
+/-- Everything the parser builds is canonical: no bare OR directly under an AND (the user's condition
+always is a parser output: NewQuery gets it from `influxql.ParseQuery`). -/
+theorem parser_output_canonical (toks : List Tok) (c : Cond) (h : parse toks = some c) : c.canon = true :=
+  parse_canon' toks c h
+
+/-- Printing and re-parsing a canonical tree (any nesting of AND/OR/parentheses) preserves its meaning. -/
+theorem reparse_preserves_meaning (c : Cond) (h : c.canon = true) (env : Env) :
+    (reparse c).eval env = c.eval env := reparse_eval env c h
+
+theorem splice_canon (c : Cond) (s e : Int) (h : c.canon = true) : (splice (some c) s e).canon = true := by
+  have hw : (wrapUser c).canon = true ∧ (wrapUser c).notOr = true := by
+    unfold wrapUser
+    split
+    · exact ⟨by simpa [Cond.canon] using h, by simp [Cond.notOr]⟩
+    · rename_i hne
+      refine ⟨h, ?_⟩
+      cases c with
+      | atom _ => rfl
+      | paren _ => rfl
+      | bin o l r => cases o with
+        | and => rfl
+        | or => exact absurd rfl (hne l r)
+  simp [splice, Cond.canon, hw.1, hw.2, geTL, ltTL, Cond.notOr]
+
+theorem wrapUser_eval (c : Cond) (env : Env) : (wrapUser c).eval env = c.eval env := by
+  unfold wrapUser; split <;> simp [Cond.eval]
+
+/-- **splice_semantics.** For EVERY user WHERE text the parser accepts and every range: the text NewQuery
+issues parses, and it is true of a row exactly when the user's condition is true of it and
+s ≤ time < e. -/
+theorem splice_semantics (toks : List Tok) (c : Cond) (hp : parse toks = some c) (s e : Int) :
+    ∃ t, parse (splice (some c) s e).print = some t ∧ RangeSpec (some c) t s e := by
+  refine ⟨reparse (splice (some c) s e), parse_print _, fun env => ?_⟩
+  rw [reparse_eval env _ (splice_canon c s e (parse_canon' toks c hp))]
+  simp [splice, Cond.eval, wrapUser_eval, geTL, ltTL, Atom.eval, TOp.eval, Bool.and_assoc]
+
+/-- … and without a WHERE clause the issued condition is the range. -/
+theorem splice_semantics_no_where (s e : Int) :
+    ∃ t, parse (splice none s e).print = some t ∧ RangeSpec none t s e := by
+  refine ⟨reparse (splice none s e), parse_print _, fun env => ?_⟩
+  rw [reparse_eval env _ (by simp [splice, Cond.canon, geTL, ltTL, Cond.notOr])]
+  simp [splice, Cond.eval, geTL, ltTL, Atom.eval, TOp.eval]
+
+/-- The same as the executable check the driver runs on observed texts. -/
+theorem splice_passes_driver_check :
+    let c := Cond.bin .or (.atom (.opq 1)) (.bin .and (.atom (.opq 2)) (.atom (.time .gt 15 false)))
+    (parse (splice (some c) 10 20).print).map (fun t => rangeHolds (some c) t 10 20) = some true := by decide
+
+/-- Counterexample (the defect repaired by 1577e3b): NewQuery of snapshot ef0888e, user text `a OR b`, range
+[10,20): the issued text is true of a row with a true and time 0. Replayed on the real code by
+corpus/C16/or-precedence.ops. -/
+theorem spliceOld_loses_time_bound :
+    ∃ (c : Cond) (env : Env), parse [.atom (.opq 1), .op .or, .atom (.opq 2)] = some c ∧
+      (parse (spliceOld (some c) 10 20).print).map (·.eval env) = some true ∧
+      ¬ (10 ≤ env.time ∧ env.time < 20) :=
+  ⟨.bin .or (.atom (.opq 1)) (.atom (.opq 2)), ⟨fun id => id == 1, 0⟩, by decide⟩
+
+/-! ### (1b) Clone re-finds exactly the spliced literals; live state never leaks -/
+
+/-- **clone_finds_the_spliced_literals.** In every state the node's query can be in, Clone succeeds and
+returns the same query: the walk picks the two literals NewQuery created (never a user predicate) and the
+group-by literals of the statement. `userNoTL`: no user atom is an in-memory TimeLiteral — true of every
+parsed text (printing erases the flag: `parse_print`; influxql's parser has no TimeLiteral production). -/
+theorem clone_finds_the_spliced_literals (user : Option Cond) (gb : Option (Int × Int)) (ag : Bool) (q : Query)
+    (hq : Reach user gb ag q) (hu : userNoTL user = true) : q.clone = some q := reach_clone hq hu
+
+/-- Setting a range on ANY reachable state (fresh, after any live ticks, or a clone) issues exactly the text
+that depends on the configuration and the range only. -/
+theorem issued_text_depends_on_range_only (user : Option Cond) (gb : Option (Int × Int)) (ag : Bool) (q : Query)
+    (hq : Reach user gb ag q) (r : Int × Int) :
+    (q.setRange r).issue = issueFor user gb ag r ∧ Reach user gb ag (q.setRange r) :=
+  ⟨(reach_setRange hq r).2, (reach_setRange hq r).1⟩
+
+theorem newQuery_reachable (user : Option Cond) (gb : Option (Int × Int)) (ag : Bool) :
+    Reach user gb ag (newQuery user gb ag) := reach_new user gb ag
+
+/-- Counterexample (the defect repaired by b9dddd3): with the snapshot's Clone (detached group-by literals)
+and alignGroup, the historical query for the tick at 17 says `time(4, 0)`, the live one `time(4, 3)`. Replayed
+by corpus/C16/aligngroup-clone-offset.ops. -/
+theorem cloneOld_keeps_stale_group_offset :
+    let q0 := newQuery none (some (4, 0)) true
+    (queriesWith (Query.cloneWith false) (fun t => some (tickerNext 10 false t)) 0 10 q0 7 (some 20) 1000).map (·.map (·.gb))
+      = some [some (4, 0)] ∧
+    (liveRun 0 10 q0 [17]).map (·.gb) = [some (4, 3)] := by decide
+
+/-! ### (2) the range of a tick, for every tick history -/
+
+/-- **range_exact.** Whatever ticks came before (the node mutates ONE query object), the text issued at tick T
+is the configuration's text for [T − offset − period, T − offset) … -/
+theorem live_queries_exact (user : Option Cond) (gb : Option (Int × Int)) (ag : Bool) (offset period : Int)
+    (ticks : List Int) :
+    liveRun offset period (newQuery user gb ag) ticks =
+      ticks.map (fun T => issueFor user gb ag (rangeOfTick offset period T)) := by
+  rw [liveRun_eq offset period ticks _ (reach_new user gb ag)]
+  rfl
+
+/-- … and that text means: user condition AND stop − period ≤ time < stop with stop = T − offset. -/
+theorem issued_query_meaning (toks : List Tok) (c : Cond) (hp : parse toks = some c)
+    (gb : Option (Int × Int)) (ag : Bool) (offset period T : Int) :
+    ∃ t, (issueFor (some c) gb ag (rangeOfTick offset period T)).cond = some t ∧
+      RangeSpec (some c) t (T - offset - period) (T - offset) := by
+  obtain ⟨t, h1, h2⟩ := splice_semantics toks c hp (T - offset - period) (T - offset)
+  exact ⟨t, h1, h2⟩
+
+/-- alignGroup: the offset written by SetStartTime aligns the buckets with the start of the range. -/
+theorem aligngroup_offset_aligned (s len : Int) : gbAligned s (len, Int.tmod s len) = true := by
+  simp only [gbAligned, decide_eq_true_eq]
+  have := Int.mul_tdiv_add_tmod s len
+  rw [show s - s.tmod len = len * (s.tdiv len) by omega]
+  exact Int.mul_emod_right _ _
+
+/-! ### (3) ticks -/
+
+/-- **aligned Next.** `timeTicker.Next` under align() is the FIRST multiple of `every` (Go's grid) after
+`now`, for every phase of `now`. -/
+theorem tickerNext_aligned_is_first_multiple (d now : Int) (hd : 0 < d) :
+    now < tickerNext d true now ∧ (tickerNext d true now + zeroOff) % d = 0 ∧
+    ∀ u, now < u → (u + zeroOff) % d = 0 → tickerNext d true now ≤ u := by
+  have h := first_multiple_after d zeroOff now hd
+  simp only [tickerNext, ↓reduceIte, goTruncate_eq now d hd]
+  exact ⟨h.1, h.2.1, h.2.2.2⟩
+
+/-- The live aligned ticker: `Truncate(now)+every` first, then the runtime's ticker times rounded — as long as
+the runtime is less than half an interval off, the k-th tick is the (k+1)-th multiple after the start. -/
+theorem live_aligned_ticks_are_consecutive_multiples (d s0 j : Int) (k : Nat) (hd : 0 < d)
+    (hj1 : -d ≤ 2 * j) (hj2 : 2 * j < d) :
+    liveTick d true s0 k j = goTruncate s0 d + (k + 1) * d := by
+  have hm : (goTruncate s0 d + (k + 1) * d + zeroOff) % d = 0 := by
+    have h := (first_multiple_after d zeroOff s0 hd).2.1
+    rw [goTruncate_eq s0 d hd]
+    obtain ⟨m, hm⟩ := (emod_zero_iff _ _).mp h
+    rw [emod_zero_iff]
+    exact ⟨m + k, by rw [Int.mul_add, Int.add_mul, Int.mul_comm (k : Int) d]; omega⟩
+  unfold liveTick
+  simp only [↓reduceIte]
+  split
+  · rename_i hk; subst hk; simp
+  · rw [show goTruncate s0 d + d + ↑k * d + j = (goTruncate s0 d + (↑k + 1) * d) + j by rw [Int.add_mul]; omega]
+    exact goRound_near_multiple d _ j hd hm hj1 hj2
+
+/-- Counterexample (the defect repaired by dca7c35): every 10 aligned, start at phase 5: the snapshot's Next
+(`Round`) makes the historical loop start at 20, the live ticker's first tick is 10. Replayed by
+corpus/C16/align-round-vs-truncate.ops. -/
+theorem tickerNextOld_skips_first_tick :
+    histTicks (fun t => some (tickerNextOld 10 true t)) 35 1000 0 (histFuel 5 35) 5 = [20, 30] ∧
+    (List.range 3).map (fun k => liveTick 10 true 5 k) = [10, 20, 30] := by decide
+
+/-! ### (4) the historical list is exactly the live list -/
+
+theorem ticksOf_map_tickRange (offset period : Int) (l : List Int) :
+    ticksOf offset (l.map (tickRange offset period)) = l := by
+  induction l with
+  | nil => rfl
+  | cons a l ih => simp only [ticksOf, List.map_cons, tickRange] at ih ⊢; rw [ih]; congr 1; omega
+
+/-- General form: whenever `next t` is the first live time after `t` (for `t` = the start or a live time),
+the ranges `Queries(start, stop)` produces satisfy `HistSpec` — for every span, offset, period and `now`.
+This is the contract under which a cron schedule is covered (`cronexpr.Next` = first firing after t). -/
+theorem historical_equals_live_of_next (live : Int → Bool) (next : Int → Option Int)
+    (start stop now offset period : Int)
+    (hnext : ∀ t, (t = start ∨ (start < t ∧ live t = true)) → IsNext live next t) :
+    HistSpec live start stop now offset period
+      ((histTicks next stop now offset (histFuel start stop) start).map (tickRange offset period)) := by
+  have h := histTicks_exact live next stop now offset (histFuel start stop) start hnext (by simp [histFuel])
+  refine ⟨?_, ?_, ?_⟩
+  · rw [ticksOf_map_tickRange]; exact h.1
+  · rw [ticksOf_map_tickRange]; exact h.2
+  · intro r hr
+    obtain ⟨T, _, rfl⟩ := List.mem_map.mp hr
+    simp only [tickRange, rangeOfTick]
+    congr 1 <;> omega
+
+/-- **historical_equals_live** for every()/align(): every interval, aligned or not, every start phase, span,
+offset, period and `now`. -/
+theorem historical_equals_live (d : Int) (hd : 0 < d) (align : Bool) (start stop now offset period : Int) :
+    HistSpec (LiveTick (.every d align) start) start stop now offset period
+      ((histTicks (fun t => some (tickerNext d align t)) stop now offset (histFuel start stop) start).map
+        (tickRange offset period)) := by
+  apply historical_equals_live_of_next
+  intro t ht
+  cases align with
+  | true => exact isNext_aligned d start t hd (by rcases ht with rfl | ⟨h, _⟩ <;> omega)
+  | false => exact isNext_unaligned d start t hd ht
+
+/-- … and for the `*/k` cron schedules the correspondence run uses. -/
+theorem historical_equals_live_cron (K : Int) (hK : 0 < K) (start stop now offset period : Int) :
+    HistSpec (LiveTick (.cronEvery K) start) start stop now offset period
+      ((histTicks (cronNext K) stop now offset (histFuel start stop) start).map (tickRange offset period)) := by
+  apply historical_equals_live_of_next
+  intro t ht
+  exact isNext_cronEvery K start t hK (by rcases ht with rfl | ⟨h, _⟩ <;> omega)
+
+/-- The texts: `Queries(start, stop)` on a node in ANY reachable state (fresh, or after any live ticks) returns
+exactly the texts a fresh task's live ticks at those times issue — conditions, ranges and group-by offsets. -/
+theorem historical_texts_equal_live_texts (user : Option Cond) (hu : userNoTL user = true)
+    (gb : Option (Int × Int)) (ag : Bool) (next : Int → Option Int) (offset period : Int)
+    (q : Query) (hq : Reach user gb ag q) (start : Int) (stop : Option Int) (now : Int) :
+    queries next offset period q start stop now =
+      some (liveRun offset period (newQuery user gb ag)
+        (histTicks next (effStop stop now) now offset (histFuel start (effStop stop now)) start)) := by
+  rw [queries_eq next offset period q hq hu, liveRun_eq offset period _ _ (reach_new user gb ag)]
+
+/-- The Go loop has no fuel: any fuel above `stop − start` gives the same list (so the model's bound loses
+nothing), whenever `next` moves forward. -/
+theorem queries_fuel_irrelevant (next : Int → Option Int) (stop now offset start : Int) (k : Nat)
+    (hinc : ∀ t c, next t = some c → t < c) :
+    histTicks next stop now offset (histFuel start stop + k) start = histTicks next stop now offset (histFuel start stop) start :=
+  histTicks_fuel next stop now offset hinc _ _ k (by simp [histFuel])
+
+/-- The closed form the driver's spec check uses IS the first live tick after `t` (for `t` at or after the
+start; for the unaligned ticker, on its own grid). -/
+theorem firstLiveAfter_least (sch : Schedule) (s0 t : Int)
+    (hs : match sch with | .every d _ => 0 < d | .cronEvery K => 0 < K)
+    (ht : match sch with
+      | .every _ false => t = s0 ∨ (s0 < t ∧ LiveTick sch s0 t = true)
+      | _ => s0 ≤ t) :
+    t < firstLiveAfter sch s0 t ∧ LiveTick sch s0 (firstLiveAfter sch s0 t) = true ∧
+    ∀ u, t < u → LiveTick sch s0 u = true → firstLiveAfter sch s0 t ≤ u := by
+  match sch, hs, ht with
+  | .every d true, hs, ht =>
+    have h := isNext_aligned d s0 t hs ht
+    have e : firstLiveAfter (.every d true) s0 t = tickerNext d true t := by
+      have := Int.mul_ediv_add_emod (t + zeroOff) d
+      simp only [firstLiveAfter, tickerNext, ↓reduceIte, goTruncate_eq t d hs]
+      rw [Int.add_mul, Int.mul_comm]; omega
+    rw [e]; exact h
+  | .every d false, hs, ht =>
+    have h := isNext_unaligned d s0 t hs ht
+    have e : firstLiveAfter (.every d false) s0 t = tickerNext d false t := by
+      simp only [firstLiveAfter, tickerNext, Bool.false_eq_true, ↓reduceIte]
+      have hk : (t - s0) % d = 0 := by
+        rcases ht with rfl | ⟨_, h2⟩
+        · simp
+        · simp only [LiveTick, Bool.and_eq_true, decide_eq_true_eq] at h2; exact h2.2
+      have := Int.mul_ediv_add_emod (t - s0) d
+      rw [Int.add_mul, Int.mul_comm]; omega
+    rw [e]; exact h
+  | .cronEvery K, hs, ht =>
+    exact isNext_cronEvery K s0 t hs ht
+
+/-! ### (6) declared sources only -/
+
+/-- **only_declared_dbrps.** When StartBatching / BatchQueries let the task run, every source of every query
+node (hence of every issued query) is declared; otherwise nothing is issued at all. -/
+theorem only_declared_dbrps (declared : List DBRP) (nodes : List (List DBRP)) :
+    match startBatching declared nodes with
+    | some issued => ∀ srcs ∈ issued, onlyDeclared declared srcs = true
+    | none => ∃ srcs ∈ nodes, onlyDeclared declared srcs = false := by
+  unfold startBatching
+  split
+  · rename_i h
+    simp only [checkDBRPs, List.all_eq_true] at h
+    intro srcs hs
+    simp only [onlyDeclared, List.all_eq_true]
+    exact h srcs hs
+  · rename_i h
+    simp only [checkDBRPs, List.all_eq_true, not_forall] at h
+    obtain ⟨srcs, hs, hn⟩ := h
+    exact ⟨srcs, hs, by simpa [onlyDeclared] using hn⟩
+
+/-! ### stated, not proved -/
+
+/-- The driver's finite check `rangeHolds` (all assignments of the comparisons that occur × all times next to
+a literal that occurs) decides `RangeSpec`: between two neighbouring literals no comparison changes. Not
+proved; the driver's verdicts rely on it only to JUDGE observed texts, the theorems above do not use it. -/
+def rangeHolds_decides_RangeSpec_stmt : Prop :=
+  ∀ (user : Option Cond) (issued : Cond) (s e : Int), rangeHolds user issued s e = true ↔ RangeSpec user issued s e
+
+/-- Clone never adopts a literal of the user's condition, even for trees no parser produces (user atoms that
+are in-memory TimeLiterals): it then fails instead. Proved above only under `userNoTL`. -/
+def clone_never_adopts_user_literal_stmt : Prop :=
+  ∀ (user : Option Cond) (s e : Int) (q' : Query),
+    ({ cond := splice user s e, startIdx := userAtoms user, stopIdx := userAtoms user + 1 } : Query).clone = some q' →
+    q'.startIdx = userAtoms user ∧ q'.stopIdx = userAtoms user + 1
+
+/-! ### non-vacuity: the hypotheses are met by concrete, non-trivial instances -/
+
+example : ∃ c, parse [.lp, .atom (.opq 1), .op .or, .atom (.opq 2), .rp, .op .and, .atom (.opq 3), .op .or, .atom (.time .gt 5 false)] = some c ∧
+    c.canon = true ∧ userNoTL (some c) = true :=
+  ⟨_, by decide, by decide, by decide⟩
+
+example : Reach (some (.atom (.opq 1))) (some (4, 0)) true
+    ((newQuery (some (.atom (.opq 1))) (some (4, 0)) true).setRange (7, 17)) :=
+  (reach_setRange (reach_new _ _ _) _).1
+
+example : histTicks (fun t => some (tickerNext 10 true t)) 35 1000 0 (histFuel 5 35) 5 = [10, 20, 30] := by decide
+example : histTicks (fun t => some (tickerNext 10 false t)) 35 22 1 (histFuel 5 35) 5 = [15] := by decide
+example : histTicks (cronNext 15) 50 1000 0 (histFuel 7 50) 7 = [15, 30, 45] := by decide
+example : startBatching [("db", "rp")] [[("db", "rp")], [("dbx", "rp")]] = none := by decide
+example : startBatching [("db", "rp")] [[("db", "rp")]] = some [[("db", "rp")]] := by decide
 
 end Kap.Props.C16
